@@ -44,6 +44,11 @@ class UserUpdateSegmentation(ActionGroup):
         node_to_select = None
         if self.tracks.segmentation is None:
             raise ValueError("Cannot update non-existing segmentation.")
+        if new_value != 0 and updated_pixels:
+            # check this precondition before any sub-action is applied: rolling back
+            # would recompute features from pixels the caller has not restored yet
+            times = np.concatenate([pixels[0] for pixels, _ in updated_pixels])
+            assert len(np.unique(times)) == 1, "Can only update one time point at a time"
         try:
             for pixels, old_value in updated_pixels:
                 ndim = len(pixels)
